@@ -219,7 +219,11 @@ def do_script(req):
     return getattr(mod, req["func"])(req.get("params", {}))
 
 
-KINDS = {"episode": do_episode, "rollout": do_rollout, "checker": do_checker, "call": do_call, "script": do_script}
+def do_pair(req):
+    return {"batched": do_episode(req["batched"]), "solo": do_episode(req["solo"])}
+
+
+KINDS = {"episode": do_episode, "pair": do_pair, "rollout": do_rollout, "checker": do_checker, "call": do_call, "script": do_script}
 
 
 def main():
